@@ -138,6 +138,42 @@ async fn strategies() {
     strategy_tail("build_non_restartable_spawn_owning", a, o).await;
 }
 
+// ---- the spawning task occupies its thread (no .await) while it waits for the actor's progress: inside
+// hannibal::runtime::block_on the spawned actor must run on its own on every runtime
+struct Rep(std::sync::mpsc::Sender<&'static str>);
+impl Actor for Rep {
+    async fn started(&mut self, _: &mut Context<Self>) -> DynResult<()> {
+        self.0.send("started").ok();
+        Ok(())
+    }
+    async fn stopped(&mut self, _: &mut Context<Self>) {
+        self.0.send("stopped").ok();
+    }
+}
+
+fn blocking() {
+    let wait = Duration::from_millis(1500);
+    let shown = |r: Result<&'static str, std::sync::mpsc::RecvTimeoutError>| r.map(|s| s.to_string()).unwrap_or_else(|_| "never".into());
+    let scen = |ep: &str, mk: &dyn Fn(Rep) -> (Addr<Rep>, Option<OwningAddr<Rep>>)| {
+        let (first, second) = runtime::block_on(async {
+            let (tx, rx) = std::sync::mpsc::channel();
+            let (mut addr, _o) = mk(Rep(tx));
+            // no .await between the spawn call and these two waits
+            let first = rx.recv_timeout(wait);
+            let _ = addr.stop();
+            let second = rx.recv_timeout(wait);
+            (first, second)
+        });
+        println!("blocking_{ep} started={} stopped={}", shown(first), shown(second));
+    };
+    scen("spawn", &|r| (r.spawn(), None));
+    scen("build_non_restartable_spawn", &|r| (hannibal::build(r).bounded(4).non_restartable().spawn(), None));
+    scen("spawn_owning", &|r| {
+        let o = r.spawn_owning();
+        (o.to_addr(), Some(o))
+    });
+}
+
 async fn within<F: Future>(f: F) -> Option<F::Output> {
     let t = runtime::sleep(Duration::from_millis(500)).fuse();
     let f = f.fuse();
@@ -200,6 +236,10 @@ fn main() {
     if std::env::args().nth(1).as_deref() == Some("panics") {
         std::panic::set_hook(Box::new(|_| {}));
         runtime::block_on(panics());
+        return;
+    }
+    if std::env::args().nth(1).as_deref() == Some("blocking") {
+        blocking();
         return;
     }
     if std::env::args().nth(1).as_deref() == Some("strategies") {
